@@ -56,7 +56,7 @@ class Roles(object):
         """the connection flag set true where the listener is registered"""
         h = self.h["open"]
         for p in handler_paths(self.model, h):
-            registered = any(e["reg"][0] == "reg" and e["reg"][2] == "_listeners"
+            registered = any(e["reg"][0] == "reg" and e["reg"][2] == self.model.names.listeners[1]
                              for e, _ in all_events(p, ("reg_set",)))
             if not registered:
                 continue
